@@ -5,7 +5,7 @@ package prolog
 //@ ---------------------------------------------------------------- Exec/ExecContext: the text is loaded by the machine's Compile, under the caller's context (C13, C20)
 
 //@ func (*Interpreter).ExecContext
-//@   property C13 C20 C15
+//@   property C13 C20 C15 C04
 //@   requires i != nil
 //@   nosafety
 //@   bind cerr = engine.(*VM).Compile#1
@@ -14,7 +14,7 @@ package prolog
 //@   ensures[the-error-of-the-load-is-returned-unchanged] called(cerr) && result == cerr
 
 //@ func (*Interpreter).Exec
-//@   property C20 C15
+//@   property C20 C15 C04
 //@   requires i != nil
 //@   nosafety
 //@   bind r = (*Interpreter).ExecContext#1
